@@ -68,7 +68,15 @@ class Fault:
         self.spent = False
 
     def matches(self, path):
-        return self.path is None or self.path == path
+        if self.path is None or self.path == path:
+            return True
+        # a write fault bound to a target also hits the temporary file an implementation writes NEXT TO that target before
+        # renaming it (target + '.part', '.target.tmp', 'target~'): same directory, the target's name inside the file's name
+        if self.kind in ('enospc_write', 'eio_write', 'eintr_write') and isinstance(path, str):
+            d1, b1 = self.path.rsplit('/', 1) if '/' in self.path else ('', self.path)
+            d2, b2 = path.rsplit('/', 1) if '/' in path else ('', path)
+            return d1 == d2 and b1 in b2
+        return False
 
 
 class SimFS:
